@@ -121,7 +121,7 @@ def vec_units(dests, types, src_quals, only_aligned=False):
                         rows.append(ctor_row('c17::K_CTOR_VEC', mode, dest, args))
             rows = list(dict(rows).items())
             if rows:
-                units.append({'key': 'ctor/vec%d<%s>' % (L, ql(T, Q)), 'group': 'ctor/vec%d<%s>(all-signatures)' % (L, ql(T, Q)), 'kind': 'c17::K_CTOR_VEC', 'rows': rows})
+                units.append({'key': 'ctor/vec%d<%s>' % (L, ql(T, Q)), 'group': 'ctor/vec%d<%s>/all-signatures' % (L, ql(T, Q)), 'kind': 'c17::K_CTOR_VEC', 'rows': rows})
     return units
 
 
@@ -155,7 +155,7 @@ def mat_units(dests, types, src_quals, shapes=SHAPES9):
             for C2, R2 in SHAPES9:
                 rows.append(ctor_row(k, 'M_SHAPE', dest, [A('m', T, Q, C2, R2)], C2, R2, suffix='/shape' if (C2, R2) == (C, R) else ''))
             rows = list(dict(rows).items())
-            units.append({'key': 'ctor/mat%dx%d<%s>' % (C, R, ql(T, Q)), 'group': 'ctor/mat%dx%d<%s>(all-signatures)' % (C, R, ql(T, Q)), 'kind': k, 'rows': rows})
+            units.append({'key': 'ctor/mat%dx%d<%s>' % (C, R, ql(T, Q)), 'group': 'ctor/mat%dx%d<%s>/all-signatures' % (C, R, ql(T, Q)), 'kind': k, 'rows': rows})
     return units
 
 
@@ -173,7 +173,7 @@ def qua_units(dests, src_quals, order='wxyz'):
                 if (U, P) != (T, Q):
                     rows.append(ctor_row(k, 'M_SEQ', dest, [A('q', U, P)]))
         rows.append(ctor_row(k, 'M_SEQ', dest, [A('q', T, Q)], suffix='/copy'))
-        units.append({'key': 'ctor/qua<%s>' % ql(T, Q), 'group': 'ctor/qua<%s>(all-signatures)' % ql(T, Q), 'kind': k, 'rows': rows})
+        units.append({'key': 'ctor/qua<%s>' % ql(T, Q), 'group': 'ctor/qua<%s>/all-signatures' % ql(T, Q), 'kind': k, 'rows': rows})
     return units
 
 
